@@ -1593,6 +1593,9 @@ func (interp *Interpreter) cfg(root *node, sc *scope, importPath, pkgName string
 			}
 			n.start = init.start
 			body.start = body.child[0] // loopvar
+			if len(body.child) == 1 {
+				body.child[0].tnext = body // empty body
+			}
 			if cond.rval.IsValid() {
 				// Condition is known at compile time, bypass test.
 				if cond.rval.Bool() {
@@ -1837,6 +1840,9 @@ func (interp *Interpreter) cfg(root *node, sc *scope, importPath, pkgName string
 				n.tnext = body.start       // then go to range body
 				body.tnext = n             // then body go to range function (loop)
 				k.gen = empty              // init filled later by generator
+				if len(body.child) == 2 {
+					body.child[1].tnext = body // empty body
+				}
 			}
 
 		case returnStmt:
